@@ -1091,7 +1091,7 @@ func run(a *hlib.Args, e *hlib.Emitter) error {
 	}
 	r := hlib.NewRng(a.Seed, 10)
 	// a.N is the approximate number of emitted cases
-	nCfg := 2
+	nCfg := 1
 	if a.Tier == "thorough" {
 		nCfg = 12
 	}
